@@ -128,7 +128,7 @@ def run(ctx):
     for c in boundary_cases(rng):
         ctx.count('boundary')
         run_case(ctx, pool, c)
-    ncat = ctx.pick(9, 70)
+    ncat = ctx.pick(9, 60)
     per = ctx.pick(10, 13)
     for k in range(ncat):
         if k % 6 == 5:
